@@ -196,6 +196,15 @@ class Interp:
         if isinstance(node, ast.Subscript):
             v = self.ev(node.value, loc)
             idx = node.slice
+            if (z3.is_string(v) and isinstance(idx, ast.Slice) and idx.upper is None and idx.step is None
+                    and isinstance(idx.lower, ast.UnaryOp) and isinstance(idx.lower.op, ast.USub)
+                    and isinstance(idx.lower.operand, ast.Constant) and isinstance(idx.lower.operand.value, int)):
+                k = idx.lower.operand.value  # s[-k:]: the last k characters (the whole string when shorter)
+                r = z3.If(z3.Length(v) >= k, z3.SubString(v, z3.Length(v) - k, k), v)
+                for g in e.hint_digits:  # valid lemma: a string ending in the k characters g has g as its last k characters
+                    if len(g) == k:
+                        e.constraints.append(z3.Implies(z3.SuffixOf(z3.StringVal(g), v), r == z3.StringVal(g)))
+                return r
             if isinstance(v, GuardedList) and isinstance(idx, ast.UnaryOp) and isinstance(idx.op, ast.USub) and v.sorted:
                 r = e.new_str("last")
                 alts = []
@@ -341,6 +350,13 @@ class Interp:
                     has = z3.InRe(s, z3.Concat(z3.Star(z3.AllChar(z3.ReSort(z3.StringSort()))), z3.Re("_run_"), z3.Loop(DIGIT, 4, 4)))
                     return z3.If(has, z3.Concat(z3.SubString(s, 0, z3.Length(s) - 9), repl), s)
             v = self.ev(f.value, loc)
+            if f.attr == "relative_to" and isinstance(v, tuple) and v[0] == "path":
+                base = self.ev(node.args[0], loc)
+                if isinstance(base, tuple) and base[0] == "dir":
+                    return v  # paths of the flat model are already names relative to the registry directory
+                raise EncodingLost("relative_to a path other than the registry directory")
+            if f.attr == "as_posix" and isinstance(v, tuple) and v[0] == "path":
+                return v[1]  # no separator in the alphabet: the posix rendering of a relative one-component path is its name
             if f.attr == "fullmatch" and isinstance(v, tuple) and v[0] == "regex":
                 a = self.ev(node.args[0], loc)
                 return ("match", z3.InRe(a[1] if isinstance(a, tuple) else a, v[1]))
